@@ -736,7 +736,7 @@ void gen_generic(int fi) {
         for (int place = 0; place < 2; place++)
         for (int idn = 0; idn < 2; idn++)
         for (int idm = 0; idm < ndmv; idm++)
-        for (int dbos = 0; dbos <= (has_bd ? 3 : 0); dbos++)      /* 1: known = declared, 2: known but smaller than declared, 3: known and larger than declared (dest is the head of a bigger object) */
+        for (int dbos = 0; dbos <= (has_bd ? 4 : 0); dbos++)      /* 1: known = declared, 2: known but smaller than declared, 3: known and larger than declared (dest is the head of a bigger object), 4: known and empty (dest points at the end of an object) */
         for (int isn = 0; isn <= (has_src ? 1 : 0); isn++)
         for (int isl = 0; isl < nslv; isl++)
         for (int sbos = 0; sbos <= (has_bs ? 1 : 0); sbos++)
@@ -746,8 +746,8 @@ void gen_generic(int fi) {
             if ((f->flags & F_NONULL) && (idn || isn)) continue;   /* no documented null-pointer constraint */
             memset(&c, 0, sizeof c);
             c.fn = fi; c.place = place; c.d_null = dnull_v[idn];
-            c.dmax = dmv[idm].dmax; c.d_huge = dmv[idm].huge; c.d_bos = dbos == 3 ? 1 : dbos;
-            if (!c.d_null && c.dmax && !c.d_huge && dbos != 2 && !isn && !slv[isl].huge && !ion && !al) {
+            c.dmax = dmv[idm].dmax; c.d_huge = dmv[idm].huge; c.d_bos = dbos == 3 ? 1 : dbos == 4 ? 2 : dbos;
+            if (!c.d_null && c.dmax && !c.d_huge && dbos != 2 && dbos != 4 && !isn && !slv[isl].huge && !ion && !al) {
                 if (has_k && !has_src && pk == 0) {      /* everything valid except the element count: the limit + 1, and values whose product with the element size wraps */
                     const size_t kv[] = { fn_limit(f) + 1, (size_t)-1 / f->w + 1, (size_t)-1 / f->w + 4, (size_t)-1 / 2 + 1, (size_t)-1 };
                     c.d_obj = dbos == 3 ? c.dmax + 3 * f->w / f->dunit + (f->w < f->dunit) : c.dmax; c.d_pk = 0; c.c = 'a';
@@ -768,6 +768,7 @@ void gen_generic(int fi) {
                 c.d_obj = c.dmax - f->w / f->dunit;                /* one element less than declared */
                 if (c.d_obj <= 0) continue;
             }
+            if (dbos == 4) { if (c.d_huge || !c.dmax) continue; c.d_obj = 0; }
             long nel = c.d_obj * f->dunit / f->w;
             c.d_pk = pk; c.d_pl = pk ? (nel > 1 ? 1 : 0) : 0;
             if (pk && nel < 1) continue;
